@@ -58,6 +58,23 @@ def rule_r1(rep, program: Program):
                 r.violate(PROP, "_get_per_chain_rngs:spawn-unused", "the spawned child seed is not used to build the chain's generator", node=c, file=f.file)
             continue
         r.violate(PROP, f"_get_per_chain_rngs:{norm(c.elt)[:40]}", "per-chain generators are not derived by jumping or spawning", node=c, file=f.file)
+    # chain-count independence inside the derivation: the chain count may bound the number of generators made
+    # (range / spawn argument) but must not select *how* a chain's generator is derived - no test reads it, and
+    # every return is one of the comprehensions checked above
+    ncp = f.params[1]
+    for n in ast.walk(f.node):
+        tests = []
+        if isinstance(n, (ast.If, ast.While, ast.IfExp)):
+            tests.append(n.test)
+        if isinstance(n, ast.comprehension):
+            tests += n.ifs
+        for t in tests:
+            if any(isinstance(x, ast.Name) and x.id == ncp for x in ast.walk(t)):
+                r.violate(PROP, f"_get_per_chain_rngs:branch-on-chain-count:{norm(t)[:40]}", f"the derivation branches on the number of chains (`{norm(t)}`): the generator of chain 0 then depends on how many chains are run (e.g. the base stream for one chain, a spawned / jumped child otherwise)", node=t, file=f.file)
+    for n in ast.walk(f.node):
+        if isinstance(n, ast.Return) and n.value is not None and not isinstance(n.value, ast.ListComp) and not (isinstance(n.value, ast.Name)):
+            r.violate(PROP, f"_get_per_chain_rngs:return:{norm(n.value)[:40]}", f"_get_per_chain_rngs returns `{norm(n.value)[:60]}`, which is not one of the per-chain derivations (a list built by jumping / spawning per chain index)", node=n, file=f.file)
+    r.inst({"derivation reads the chain count only as a bound": True})
     # the result is used: sample_chains builds per_chain_rngs from self.rng
     sc = program.method("MarkovChainMonteCarloMethod", "sample_chains")
     uses = [n for n in ast.walk(sc.node) if isinstance(n, ast.Assign) and isinstance(n.value, ast.Call) and norm(n.value.func) == "_get_per_chain_rngs"]
